@@ -4,7 +4,7 @@
    are unique, CSystem is in the constraint list of s, no store declares a field named isSystem),
    every state, every fuel, every context. *)
 From Coq Require Import List NArith Bool.
-From Storage Require Import Base.Bytes Store.Model Store.SystemProofs Store.SystemStrip.
+From Storage Require Import Base.Bytes Store.Model Store.SystemProofs Store.SystemStrip Store.SystemMixed.
 Import ListNotations.
 
 (* (1) Create with the system flag, Update and DeleteById of an entity whose STORED flag is set - entered
@@ -112,3 +112,47 @@ Theorem ordinary_update_unaffected_any : forall sch oc st evs x i fv sv ch,
   op_update (strip sch) oc (st, evs) x i fv sv ch = op_update sch oc (st, evs) x i fv sv ch.
 Proof. exact ordinary_update_unaffected_any_lemma. Qed.
 Print Assumptions ordinary_update_unaffected_any.
+
+(* (4) MIXED transactions (Store/SystemMixed.v): every operation of a transaction runs through its own context object
+   (the base context of the transaction, a system context derived from it, a nested Db.Update), and the body may
+   swallow the refusal of an update of a system entity and go on to commit.
+   (4a) the mixed machine with one context kind for all operations and no swallowing IS the transaction machine. *)
+Theorem mixed_conservative : forall sch fuel st t,
+  run_mtx sch fuel st (mkMtx (tx_vetoes t) (uniform (tx_sys t) (tx_ops t)) (tx_precommit_fails t)) = run_tx sch fuel st t.
+Proof. exact run_mtx_uniform_lemma. Qed.
+Print Assumptions mixed_conservative.
+
+(* (4b) the context kind of THIS operation decides - whatever contexts were derived from the same base context earlier in
+   the transaction: an operation on a system entity through an ordinary context is refused; and if the caller swallows
+   the refusal, the machine continues from exactly the state (and queued events) before the refused operation *)
+Theorem refused_op_no_write : forall sch s fuel vs stev m r,
+  wf_system_b sch s = true -> m_sys m = false -> sys_target sch s (fst stev) (m_op m) ->
+  exists k, run_op sch fuel (mkOctx false vs) stev (m_op m) = Err k /\
+    run_mops sch fuel vs stev (m :: r) =
+      if swallows sch (fst stev) m
+      then (Some k :: fst (run_mops sch fuel vs stev r), snd (run_mops sch fuel vs stev r))
+      else ([Some k], Err k).
+Proof. exact refused_op_no_write_lemma. Qed.
+Print Assumptions refused_op_no_write.
+
+(* (4c) a refusal that is not swallowed rolls the whole mixed transaction back, wherever it stands and whichever
+   contexts the operations before it used *)
+Theorem mixed_system_requires_system_ctx : forall sch s fuel st t pre m post stev',
+  wf_system_b sch s = true -> m_sys m = false ->
+  mt_ops t = pre ++ m :: post ->
+  snd (run_mops sch fuel (mt_vetoes t) (st, []) pre) = Ok stev' ->
+  sys_target sch s (fst stev') (m_op m) ->
+  swallows sch (fst stev') m = false ->
+  exists rs, run_mtx sch fuel st t = (rs, false, st, []).
+Proof. exact mixed_system_requires_system_ctx_lemma. Qed.
+Print Assumptions mixed_system_requires_system_ctx.
+
+(* (4d) the flag in mixed transactions: an entity that exists before and after every executed operation keeps its flag,
+   whatever contexts are used and whichever refusals are swallowed *)
+Theorem mixed_ops_preserve_flag : forall sch s fuel vs j ops stev rs stev',
+  wf_system_b sch s = true ->
+  run_mops sch fuel vs stev ops = (rs, Ok stev') ->
+  alive_mops sch s fuel vs j stev ops ->
+  get_field sch (fst stev') s j isSystemF = get_field sch (fst stev) s j isSystemF.
+Proof. exact mixed_ops_preserve_flag_lemma. Qed.
+Print Assumptions mixed_ops_preserve_flag.
